@@ -179,7 +179,7 @@ fn classify_by_backtrace() -> (bool, Option<String>) {
             if skip {
                 continue;
             }
-            let sym_is_repo = cur_sym.starts_with("ark_") || cur_sym.starts_with("<ark_") || cur_sym.contains(" as ark_");
+            let sym_is_repo = cur_sym.starts_with("ark_") || cur_sym.starts_with("<ark_") || cur_sym.contains(" as ark_") || cur_sym.contains("<impl ark_");
             if sym_is_repo || is_repo_path(rest) {
                 let mut parts = rest.rsplitn(2, ':');
                 let _col = parts.next();
